@@ -41,6 +41,9 @@ pub(crate) fn is_valid(node: SvgNode) -> bool {
 /// The largest number of marker instances that may be created inside of other markers.
 const NESTED_MARKER_INSTANCES_LIMIT: usize = 100_000;
 
+/// The largest number of elements that marker instances may copy.
+const MARKER_ELEMENTS_LIMIT: usize = 1_000_000;
+
 pub(crate) fn convert(
     node: SvgNode,
     path: &tiny_skia_path::Path,
@@ -214,6 +217,13 @@ fn resolve(
                 return;
             }
         }
+
+        // Every instance copies all elements of the marker, and a path has an instance per vertex:
+        // limit the copied elements, like the svgtree limits the nodes of a document.
+        if cache.marker_elements >= MARKER_ELEMENTS_LIMIT {
+            return;
+        }
+        cache.marker_elements += marker_node.descendants().count();
 
         let mut marker_state = state.clone();
         marker_state.parent_markers.push(marker_node);
